@@ -200,6 +200,51 @@ pub fn attempt(bw: &mut Bw, rng: &mut Rng, rep: &mut Report, lines: Option<&mut 
         }
         bw.w.accounts = snap;
     }
+    // ---- only real bad debt, also when the collateral cannot be priced: the account still HOLDS sizeable collateral in a bank
+    // priced by a Pyth feed that is fresh, exactly at its maximum age, or too old / not fully verified. A feed that prices says
+    // "not bankrupt"; a feed that does not price must abort the settlement — it never counts the collateral as worth nothing
+    if rng.chance(1, 4) {
+        let snap = bw.w.accounts.clone();
+        let now = bw.w.clock_ts;
+        let cbk0 = bw.w.bank(&bw.cb.bank);
+        let max_age = cbk0.config.oracle_max_age as i64;
+        let (age, what) = match rng.below(5) {
+            0 => (0, "fresh"),
+            1 => (max_age, "exactly at its maximum age"),
+            2 => (max_age + 1, "one second too old"),
+            3 => (3600, "an hour old"),
+            _ => (86_400 * 30, "a month old"),
+        };
+        let oracle = bw.w.add_pyth_oracle(10_0000_0000, 100_000, 10_0000_0000, 100_000, -8, now - age);
+        let mut cbk = cbk0;
+        cbk.config.oracle_setup = marginfi_type_crate::types::OracleSetup::PythPushOracle;
+        cbk.config.oracle_keys[0] = oracle;
+        let held: i128 = *rng.pick(&[ONE * 1_000_000, ONE * 250_000_000, ONE * 5_000]); // $10, $2500, 5 cents at $10 and 6 decimals
+        let mut a = bw.w.marginfi_account(&bw.victim);
+        for bal in a.lending_account.balances.iter_mut() {
+            if bal.is_active() && bal.bank_pk == bw.cb.bank {
+                let old = bits(bal.asset_shares);
+                bal.asset_shares = I80F48::from_bits(held).into();
+                cbk.total_asset_shares = I80F48::from_bits(bits(cbk.total_asset_shares) - old + held).into();
+            }
+        }
+        let holds = a.lending_account.balances.iter().any(|b| b.is_active() && b.bank_pk == bw.cb.bank);
+        bw.w.set_marginfi_account(&bw.victim, &a);
+        bw.w.set_bank(&bw.cb.bank, &cbk);
+        if holds {
+            let auth_signer = if permissionless { signer } else { bw.admin };
+            let risk = bw.w.remaining_in_slot_order(&bw.victim);
+            let r = bw.w.exec(&ix::handle_bankruptcy(&lb, auth_signer, bw.victim, risk));
+            rep.bump("unpriced_collateral_probes");
+            rep.bump(&format!("unpriced_{}", match &r { Ok(()) => "settled".to_string(), Err(e) => e.code().map(|c| c.to_string()).unwrap_or_else(|| "other".into()) }));
+            let worth_cents = held / ONE / 1000; // native units (6 decimals) * $10, in cents
+            if r.is_ok() && worth_cents >= 10 {
+                rep.fail(format!("C07 bankruptcy settled {} bits of debt while the account holds {} shares of collateral (about {} cents at the feed's price 10) in a bank whose Pyth feed is {} (age {} s, maximum {} s): collateral that cannot be priced was counted as nothing",
+                    bad_debt, held, worth_cents, what, age, max_age));
+            }
+        }
+        bw.w.accounts = snap;
+    }
     let before = bw.w.accounts.clone();
     let risk = bw.w.remaining_in_slot_order(&bw.victim);
     let r = bw.w.exec(&ix::handle_bankruptcy(&lb, signer, bw.victim, risk));
